@@ -308,4 +308,68 @@ func C01(r *chk.Run) {
 	r.Assume("custom-codec configurations: the Reader API cannot be given a decompressor, so only the lexer path must reproduce the data; the iterator may fail but must not return wrong data")
 	r.Rule("each written file is read back through 4 lexer variants (CRC validation x caller buffer reuse) and the non-indexed iterator through Next(nil), Next(buf), NextInto(nil), NextInto(reused); values returned by allocating calls are retained and re-compared at the end (stability clause)")
 	writerSpace(r, so, c01Oracle)
+	r.Phase("record-length-sweeps", c01SweepBody(r.Thorough()), chk.PhaseOpts{SplitLen: 3})
+}
+
+// strN returns a string of n bytes.
+func strN(n int) string { return string(bytes.Repeat([]byte{'x'}, n)) }
+
+// sweepOp builds one record of the given kind whose variable part has length n.
+func sweepOp(kind, n int, seq uint32) model.Op {
+	switch kind {
+	case 0:
+		return model.Sch(&ref.Schema{ID: uint16(10 + seq), Name: strN(n), Encoding: "e", Data: []byte{1}})
+	case 1:
+		return model.Chn(&ref.Channel{ID: uint16(10 + seq), SchemaID: 0, Topic: strN(n), MessageEncoding: "m", Metadata: []ref.KV{{K: "k", V: "v"}}})
+	case 2:
+		return model.Chn(&ref.Channel{ID: uint16(10 + seq), SchemaID: 0, Topic: "t", MessageEncoding: "m", Metadata: []ref.KV{{K: "k", V: strN(n)}}})
+	case 3:
+		return model.Met(&ref.Metadata{Name: "n", Metadata: []ref.KV{{K: strN(n), V: ""}}})
+	case 4:
+		return model.Att(&ref.Attachment{LogTime: 1, CreateTime: 2, Name: strN(n), MediaType: "m", Data: []byte{1, 2}})
+	}
+	return model.Chn(&ref.Channel{ID: uint16(10 + seq), SchemaID: 0, Topic: strN(n), MessageEncoding: "", Metadata: nil}) // no metadata
+}
+
+// c01SweepBody: the writer sizes its record scratch buffer from the records it has seen (doubling),
+// so off-by-a-few errors only show for a record a few bytes larger than the current buffer. The
+// sweep writes, with a fresh writer, a first record of one of a few sizes followed by a second
+// record of EVERY length in a window around twice the first one's size (and every length from 0 to
+// 1200 when there is no first record), for every pair of record kinds.
+func c01SweepBody(thorough bool) explore.Body {
+	firsts := []int{-1, 0, 40, 600, 3000}
+	return func(x *explore.Ctx) *explore.Verdict {
+		k2 := x.Choose("op", 6)
+		fi := x.Choose("arg", len(firsts))
+		first := firsts[fi]
+		k1 := 0
+		lo, hi := 0, 1200
+		if first >= 0 {
+			k1 = x.Choose("op", 6)
+			lo, hi = 2*first-60, 2*first+60
+			if lo < 0 {
+				lo = 0
+			}
+		}
+		n := lo + x.Choose("arg", hi-lo+1)
+		var ops []model.Op
+		if first >= 0 {
+			ops = append(ops, sweepOp(k1, first, 1))
+		}
+		ops = append(ops, sweepOp(k2, n, 2), model.Chn(model.C0), model.Msg(0, 1, 3, 0))
+		c := model.Fixed(model.Headers[0], ops...)
+		cfg := gow.Config{CRC: true, Chunked: n%2 == 0, ChunkSize: 1 << 20}
+		res := gow.Write(c, cfg, nil, nil)
+		x.Ops += len(ops)
+		x.Note = note(c, cfg)
+		x.State = explore.Hash(res.Bytes)
+		if v := c01Oracle(x, c, cfg, res); v != nil {
+			v.Msg = clipS(v.Msg)
+			return v
+		}
+		if probs := ref.Validate(ref.Decode(res.Bytes, true), cfg.Expect()); len(probs) > 0 {
+			return vio("C01:sweep-invalid-file", "length sweep: %s (first record kind %d length %d, second kind %d length %d)", probs[0].Msg, k1, first, k2, n)
+		}
+		return nil
+	}
 }
